@@ -1,12 +1,15 @@
 /-
 Property C07 — the Processor evaluates multi-engine trees faithfully and only annotates payloads.
 
-Claimed at proof level, partial: proved for trees that span several ITERATION engines (the Processor model of
+Claimed at proof level, partial: proved for trees whose operations run in ITERATION engines, fed by transfers between
+iteration engines and by transfers OUT OF A SQL ENGINE (the Processor model of
 `Model/Processor.lean`, hooks instantiated as the harness instantiates them, tied to the real `Processor.process`
-by the correspondence run); trees that involve a SQL engine are validated by the oracle on every generated
-program.
+by the correspondence run); trees with operations or materializations INSIDE a SQL engine downstream of a
+transfer, joins across engines and Select markers are validated by the oracle on every generated program.
   * `multi_engine_process_then_execute_yields_direct_rows`: for every tree of leaves, unary operations, chains,
-    transfers BETWEEN iteration engines (statically trivial ones included) and materializations of single-engine subtrees, nested to any depth:
+    transfers BETWEEN iteration engines (statically trivial ones included), transfers OUT OF A SQL ENGINE whose
+    source is a raw SQL tree over tables (unary operations, joins, chains: the hook conforms, compiles and runs it -
+    C17, C02) and materializations of single-engine subtrees, nested to any depth:
     whenever `Processor.process` succeeds, the returned tree has the engine and the columns of the input and
     executing it in its final engine yields exactly the rows - values, multiplicity, order - of the direct
     evaluation of the input.  Behind it, `multi_engine_processing_invariant` (induction over the tree through the
@@ -34,6 +37,7 @@ Further theorems (machine-checked, about the model's `_process_recursive`):
 -/
 import DafRel.Model.Processor
 import DafRel.Spec.Processor
+import DafRel.Lemmas.ProcBasics
 import DafRel.Lemmas.ProcIter
 import DafRel.Lemmas.ProcMulti
 
@@ -50,11 +54,8 @@ macro "proc_simp" h:(term)? : tactic =>
 
 theorem processed_relation_is_left_alone (σ : Leaves) (fuel : Nat) (orig : Rel) (matAs : Option String)
     (s : ProcState) (h : (s.payloadOf orig).isSome = true) :
-    (processRec σ (fuel+1) orig matAs).run.run s = (.ok (.same, true), s) := by
-  unfold processRec
-  simp [bind, ExceptT.bind, ExceptT.mk, ExceptT.bindCont, StateT.bind, get, getThe, MonadStateOf.get, StateT.get,
-    liftM, monadLift, MonadLift.monadLift, ExceptT.lift, ExceptT.run, StateT.run, h, pure, ExceptT.pure, StateT.pure,
-    Functor.map, StateT.map]
+    (processRec σ (fuel+1) orig matAs).run.run s = (.ok (.same, true), s) :=
+  processRec_cached σ fuel orig matAs s h
 
 /-- `Processor.process` on a relation that holds a payload: the relation itself, no hook, no new payload. -/
 theorem reprocessing_calls_no_hook (σ : Leaves) (st : ExecState) (sq : SqlState) (t : Rel)
@@ -69,59 +70,10 @@ theorem reprocessing_calls_no_hook (σ : Leaves) (st : ExecState) (sq : SqlState
   rfl
 
 /-- A fully processed tree is returned unchanged: no operation node is rebuilt, no hook runs, nothing is attached. -/
-theorem fully_processed_tree_is_returned_unchanged (σ : Leaves) (s : ProcState) :
-    (t : Rel) → (fuel : Nat) → (matAs : Option String) →
-    t.Settled s → t.size ≤ fuel → ∃ b, (processRec σ fuel t matAs).run.run s = (.ok (.same, b), s)
-  | .leaf a b c d e f g h, fuel, matAs, hs, hf => by
-    cases fuel with
-    | zero => simp [Rel.size] at hf
-    | succ n => exact ⟨true, processed_relation_is_left_alone σ n _ matAs s hs⟩
-  | .mat a b c, fuel, matAs, hs, hf => by
-    cases fuel with
-    | zero => simp [Rel.size] at hf
-    | succ n => exact ⟨true, processed_relation_is_left_alone σ n _ matAs s hs⟩
-  | .transfer a b c, fuel, matAs, hs, hf => by
-    cases fuel with
-    | zero => simp [Rel.size] at hf
-    | succ n => exact ⟨true, processed_relation_is_left_alone σ n _ matAs s hs⟩
-  | .select a b c d e f g h i, fuel, matAs, hs, hf => by
-    cases fuel with
-    | zero => simp [Rel.size] at hf
-    | succ n => exact ⟨true, processed_relation_is_left_alone σ n _ matAs s hs⟩
-  | .unary op t c, fuel, matAs, hs, hf => by
-    cases fuel with
-    | zero => simp [Rel.size] at hf
-    | succ n =>
-      obtain ⟨b, ih⟩ := fully_processed_tree_is_returned_unchanged σ s t n none hs (by simp [Rel.size] at hf; omega)
-      simp only [ExceptT.run, StateT.run] at ih
-      refine ⟨false, ?_⟩
-      unfold processRec
-      simp [bind, ExceptT.bind, ExceptT.mk, ExceptT.bindCont, StateT.bind, get, getThe, MonadStateOf.get, StateT.get,
-        liftM, monadLift, MonadLift.monadLift, ExceptT.lift, ExceptT.run, StateT.run, pure, ExceptT.pure, StateT.pure,
-        Functor.map, StateT.map, ProcState.payloadOf, ih]
-  | .binary op l r c, fuel, matAs, hs, hf => by
-    cases fuel with
-    | zero => simp [Rel.size] at hf
-    | succ n =>
-      obtain ⟨hl, hr, hop⟩ := hs
-      obtain ⟨b1, ih1⟩ := fully_processed_tree_is_returned_unchanged σ s l n none hl (by simp [Rel.size] at hf; omega)
-      obtain ⟨b2, ih2⟩ := fully_processed_tree_is_returned_unchanged σ s r n none hr (by simp [Rel.size] at hf; omega)
-      simp only [ExceptT.run, StateT.run] at ih1 ih2
-      refine ⟨false, ?_⟩
-      unfold processRec
-      cases op with
-      | chain =>
-        simp [bind, ExceptT.bind, ExceptT.mk, ExceptT.bindCont, StateT.bind, get, getThe, MonadStateOf.get, StateT.get,
-          liftM, monadLift, MonadLift.monadLift, ExceptT.lift, ExceptT.run, StateT.run, pure, ExceptT.pure, StateT.pure,
-          Functor.map, StateT.map, ProcState.payloadOf, ih1, ih2, Res.get, hop.1, hop.2]
-      | join j =>
-        simp [bind, ExceptT.bind, ExceptT.mk, ExceptT.bindCont, StateT.bind, get, getThe, MonadStateOf.get, StateT.get,
-          liftM, monadLift, MonadLift.monadLift, ExceptT.lift, ExceptT.run, StateT.run, pure, ExceptT.pure, StateT.pure,
-          Functor.map, StateT.map, ProcState.payloadOf, ih1, ih2, Res.get]
-      | ignoreOne b =>
-        simp [bind, ExceptT.bind, ExceptT.mk, ExceptT.bindCont, StateT.bind, get, getThe, MonadStateOf.get, StateT.get,
-          liftM, monadLift, MonadLift.monadLift, ExceptT.lift, ExceptT.run, StateT.run, pure, ExceptT.pure, StateT.pure,
-          Functor.map, StateT.map, ProcState.payloadOf, ih1, ih2, Res.get]
+theorem fully_processed_tree_is_returned_unchanged (σ : Leaves) (s : ProcState) (t : Rel) (fuel : Nat)
+    (matAs : Option String) (hs : t.Settled s) (hf : t.size ≤ fuel) :
+    ∃ b, (processRec σ fuel t matAs).run.run s = (.ok (.same, b), s) :=
+  processRec_settled σ s t fuel matAs hs hf
 
 /-- **The Processor only annotates a single-engine tree**: the SAME tree comes back, no node is created, the payload
 store stays right (`StoreOK`: every payload holds the rows registered for its marker - for the materializations of
@@ -129,7 +81,7 @@ the tree, the rows of the direct evaluation of their targets), and a processed m
 theorem single_engine_tree_is_only_annotated (σ : Leaves) (reg : Nat → Option (List Row)) (e : Engine)
     (hek : e.kind = .iter) (t : Rel) (fuel : Nat) (matAs : Option String) (s : ProcState)
     (hp : t.PlainIter e) (hio : t.IterOK) (hwf : t.WF) (htr : t.Truthful σ) (hkd : keyDetermined σ t = true)
-    (hreg : t.RegOK σ reg) (hs : StoreOK σ reg s.st) (hq : s.sq.payloads = []) (hf : t.size ≤ fuel) :
+    (hreg : t.RegOK σ reg) (hs : StoreOK σ reg s.st) (hq : t.sqFree s.sq) (hf : t.size ≤ fuel) :
     ∃ s', (processRec σ fuel t matAs).run.run s = (.ok (.same, t.procFlag), s') ∧ StoreOK σ reg s'.st ∧
       s'.nextTemp = s.nextTemp ∧ (t.procFlag = true → (s'.payloadOf t).isSome = true) := by
   obtain ⟨s', h, P⟩ := process_plain_iter σ reg e hek t fuel matAs s hp hio hwf htr hkd hreg hs hq hf
@@ -144,24 +96,30 @@ theorem process_then_execute_yields_direct_rows (σ : Leaves) (reg : Nat → Opt
       ∃ it s', exec σ t.engine t ps.st = .ok (it, s') ∧ it.rows σ = .ok (sem σ t) :=
   process_then_execute σ reg e hek t st hp hio hwf htr hkd hreg hs hf
 
-/-- **What processing a tree over several iteration engines achieves** (every recursion budget, any
-`materialize_as`, any starting state whose payload store is right): the registry of marker contents extends to the
-fresh nodes (`RegExt`), and relative to it the returned tree is executable, well-formed, truthful, has a right payload
-store, the rows and columns of the input and its engine. -/
-theorem multi_engine_processing_invariant (σ : Leaves) (t : Rel) (fuel : Nat) (matAs : Option String)
-    (s : ProcState) (reg : Nat → Option (List Row)) (hm : t.MultiIter) (T : TreeInv σ reg t s) (hf : t.size ≤ fuel)
+/-- **What processing a multi-engine tree achieves** (every recursion budget, any `materialize_as`, any starting
+state whose payload store is right): the registry of marker contents extends to the fresh nodes (`RegExt`), and
+relative to it the returned tree is well-formed, truthful, executable by the iteration engine (`IterOKs`: Transfers
+out of a database hold their payload), has a right payload store, the rows and columns of the input and its engine;
+no payload was lost (`PayMono`). -/
+theorem multi_engine_processing_invariant (σ : Leaves) (sq0 : SqlState) (h0 : sq0.payload 0 = none) (t : Rel)
+    (fuel : Nat) (matAs : Option String) (s : ProcState) (reg : Nat → Option (List Row)) (hm : t.MultiIter)
+    (hsql : t.SqlSrcOK σ sq0) (T : TreeInv σ reg sq0 t s) (hf : t.size ≤ fuel)
     (res : Res) (b : Bool) (s' : ProcState) (h : (processRec σ fuel t matAs).run.run s = (.ok (res, b), s')) :
-    ∃ reg', RegExt reg reg' s.nextTemp ∧ ProcMultiOK σ reg' t s res s' :=
-  process_multi_iter σ t fuel matAs s reg hm T hf res b s' h
+    ∃ reg', RegExt reg reg' s.nextTemp ∧ ProcMultiOK σ reg' sq0 t s res s' :=
+  process_multi_iter σ h0 t fuel matAs s reg hm hsql T hf res b s' h
 
-/-- **Process a multi-engine tree, execute the result: the rows of direct evaluation.** -/
+/-- **Process a multi-engine tree, execute the result: the rows of direct evaluation.**  Transfers out of a SQL
+engine included: the hook conforms, compiles and runs the source (C17, C02), the rows it returns are the direct
+evaluation of the source, and the operations downstream run in the iteration engine (C01). -/
 theorem multi_engine_process_then_execute_yields_direct_rows (σ : Leaves) (reg : Nat → Option (List Row)) (t : Rel)
-    (st : ExecState) (hm : t.MultiIter) (hio : t.IterOK) (hwf : t.WF) (htr : t.Truthful σ)
-    (hkd : keyDetermined σ t = true) (hreg : t.RegOK σ reg) (hb : t.markersBelow tempBase) (hs : StoreOK σ reg st)
-    (hf : t.size ≤ defaultFuel) (res : Res) (ps : ProcState) (h : processTop σ st {} t = (.ok res, ps)) :
+    (st : ExecState) (sq : SqlState) (h0 : sq.payload 0 = none) (hm : t.MultiIter) (hsql : t.SqlSrcOK σ sq)
+    (hwf : t.WF) (htr : t.Truthful σ) (hkd : keyDetermined σ t = true) (hreg : t.RegOK σ reg)
+    (hb : t.markersBelow tempBase) (hs : StoreOK σ reg st) (hfree : t.sqFree sq)
+    (hfresh : ∀ o, tempBase ≤ o → sq.payload o = none) (hf : t.size ≤ defaultFuel)
+    (res : Res) (ps : ProcState) (h : processTop σ st sq t = (.ok res, ps)) :
     (res.get t).engine = t.engine ∧ (∀ u, u ∈ (res.get t).columns ↔ u ∈ t.columns) ∧
       ∃ it s', exec σ (res.get t).engine (res.get t) ps.st = .ok (it, s') ∧ it.rows σ = .ok (sem σ t) :=
-  process_multi_then_execute σ reg t st hm hio hwf htr hkd hreg hb hs hf res ps h
+  process_multi_then_execute σ reg t st sq h0 hm hsql hwf htr hkd hreg hb hs hfree hfresh hf res ps h
 
 /-- A statically trivial Transfer gets the destination engine's trivial payload: no hook is called, and the node
 that receives the payload is a NEW Transfer (a fresh allocation id) over the untouched target. -/
@@ -224,11 +182,27 @@ theorem are met, and processing succeeds -/
 private def e2 : Engine := ⟨2, .iter⟩
 private def multiT : Rel := .unary (.sel (.fn .gt [.ref ta, .lit 0] none)) (.transfer 6 e2 matT) [ta]
 example : multiT.MultiIter ∧ multiT.IterOK ∧ multiT.WF ∧ multiT.markersBelow tempBase ∧ multiT.size ≤ defaultFuel := by
-  refine ⟨⟨⟨rfl, rfl⟩, rfl⟩,
+  refine ⟨⟨⟨rfl, Or.inl ⟨rfl, rfl, rfl, ⟨rfl, rfl, rfl⟩⟩⟩, rfl, rfl⟩,
     ⟨⟨⟨rfl, rfl, rfl⟩, rfl⟩, rfl, rfl⟩, ⟨⟨trivial, rfl, by decide⟩, rfl, by decide⟩, ⟨by decide, by decide, trivial⟩,
     by decide⟩
 example : (match processTop σ1 {} {} multiT with
     | (.ok res, _) => (res.get multiT).engine.id
     | _ => 99) = 2 := by decide +kernel
+
+/-- a selection (in iteration engine 1) over a transfer OUT OF the SQL engine of a selection over a table: the tree
+is in the class, processing succeeds, and executing the processed tree returns the row of the direct evaluation -/
+private def sqlLeaf : Rel := .leaf 3 e0 [ta] "T" 0 none true 0
+private def sqlSrc : Rel := .unary (.sel (.fn .ge [.ref ta, .lit 1] none)) sqlLeaf [ta]
+private def crossT : Rel := .unary (.sel (.fn .gt [.ref ta, .lit 0] none)) (.transfer 8 e1 sqlSrc) [ta]
+private def sqS : SqlState := { payloads := [(3, tablePayload "T" 3 0 [ta])], tables := [σ1 3] }
+example : crossT.MultiIter ∧ crossT.WF ∧ crossT.markersBelow tempBase ∧ crossT.sqFree sqS ∧ sqS.payload 0 = none := by
+  refine ⟨⟨⟨rfl, Or.inr ⟨rfl, rfl, rfl, rfl⟩⟩, rfl, rfl⟩, ⟨⟨trivial, rfl, by decide⟩, rfl, by decide⟩, ⟨by decide, trivial⟩,
+    ⟨rfl, fun h => by cases h⟩, rfl⟩
+example : (match processTop σ1 {} sqS crossT with
+    | (.ok res, ps) =>
+      (match exec σ1 e1 (res.get crossT) ps.st with
+       | .ok (it, _) => (it.rows σ1).toOption.map (fun rows => rows.map (fun r => r ta))
+       | .error _ => none)
+    | _ => none) = some [some 1] := by decide +kernel
 
 end DafRel.Props.C07
